@@ -109,7 +109,14 @@ func (kc *Cache[V]) Update(key []byte, fn func(v Entry[V], exists bool) Entry[V]
 	needToEvict := kc.count > kc.max
 	if needToEvict {
 		evicted = kc.evict()
-		added = !bytes.Equal(key, evicted.Key)
+		if evicted == nil {
+			// every bucket is within its protected minimum: the entry just added has to go.
+			if ent, deleted := b.delete(key); deleted {
+				kc.count--
+				evicted = &ent
+			}
+		}
+		added = evicted != nil && !bytes.Equal(key, evicted.Key)
 	}
 	return evicted, added
 }
